@@ -29,16 +29,18 @@ Hypothesis Hfn : low24 fn.
 Hypothesis Hbn : low24 bn.
 Let v := pack (marker md) fn (F ss k) bn (bgflag bk).
 
-Lemma rgb_fg_pack : rgb_fg v = match k with KNone => Ok None | _ => rgb_num (colors_spec md k bk) fn end.
+Definition rgb_basic (n : Z) : result (option (Z * Z * Z)) := bind (get_index BASIC_COLOR_VALUES n) (fun t => Ok (Some t)).
+
+Lemma rgb_fg_pack : rgb_fg v = match k with KNone => Ok None | KBasic => rgb_basic fn | _ => rgb_num (colors_spec md k bk) fn end.
 Proof.
-  destruct (fg_kind_pack md fn bn ss k bk Hfn Hbn) as [E1 [E2 E3]]. unfold rgb_fg, rgb_num.
+  destruct (fg_kind_pack md fn bn ss k bk Hfn Hbn) as [E1 [E2 E3]]. unfold rgb_fg, rgb_num, rgb_basic.
   fold v in E1, E2, E3. rewrite E1, E2, E3. unfold v. rewrite !colors_pack by assumption.
   rewrite !(acc_fgnum _ _ _ _ _ (OKv md fn bn ss k bk Hfn Hbn)).
   destruct k; reflexivity.
 Qed.
-Lemma rgb_bg_pack : rgb_bg v = match bk with KNone => Ok None | _ => rgb_num (colors_spec md k bk) bn end.
+Lemma rgb_bg_pack : rgb_bg v = match bk with KNone => Ok None | KBasic => rgb_basic bn | _ => rgb_num (colors_spec md k bk) bn end.
 Proof.
-  destruct (bg_kind_pack md fn bn ss k bk Hfn Hbn) as [E1 [E2 E3]]. unfold rgb_bg, rgb_num.
+  destruct (bg_kind_pack md fn bn ss k bk Hfn Hbn) as [E1 [E2 E3]]. unfold rgb_bg, rgb_num, rgb_basic.
   fold v in E1, E2, E3. rewrite E1, E2, E3. unfold v. rewrite !colors_pack by assumption.
   rewrite !(acc_bgnum _ _ _ _ _ (OKv md fn bn ss k bk Hfn Hbn)).
   destruct bk; reflexivity.
@@ -52,25 +54,25 @@ Proof. intros H. unfold xterm88. now replace (n <? 16) with true by lia. Qed.
 
 Definition mode_depth (md : mode) : Z := match md with M88 => 88 | MTrue => TRUE_DEPTH | M256 => 256 end.
 
+Lemma basic_sweep : forallb (fun n => match get_index BASIC_COLOR_VALUES n with Ok t => triple_eqb t (triple_d xterm_basic n) | Err _ => false end) (upto 16) = true.
+Proof. vm_compute. reflexivity. Qed.
+Lemma rgb_basic_xterm n : 0 <= n < 16 -> rgb_basic n = Ok (Some (triple_d xterm_basic n)).
+Proof.
+  intros H. pose proof (sweep 16 _ basic_sweep n ltac:(lia)) as S. cbn beta in S. unfold rgb_basic.
+  destruct (get_index BASIC_COLOR_VALUES n); [|discriminate]. cbn [bind]. now rewrite (triple_eqb_eq _ _ S).
+Qed.
+
 (* one side: the model's answer is the xterm value of the reported description *)
 Lemma side_rgb md ks n cs d :
   side_ok md ks n ->
-  (ks = KBasic -> cs = 16 \/ cs = 88 \/ cs = 256) ->
   (ks = KHigh \/ ks = KTrue -> cs = mode_depth md) ->
   side_desc cs ks n = Ok d ->
-  match ks with KNone => Ok None | _ => rgb_num cs n end = Ok (expected_rgb cs d).
+  match ks with KNone => Ok None | KBasic => rgb_basic n | _ => rgb_num cs n end = Ok (expected_rgb cs d).
 Proof.
-  intros Hs Hb Hh Ed. destruct ks; cbn [side_desc] in Ed.
+  intros Hs Hh Ed. destruct ks; cbn [side_desc] in Ed.
   - injection Ed as <-. reflexivity.
   - cbn in Hs. unfold basic_name in Ed. replace ((0 <=? n) && (n <? 16)) with true in Ed by lia.
-    injection Ed as <-. cbn [expected_rgb]. unfold rgb_num.
-    destruct (Hb eq_refl) as [-> | [-> | ->]].
-    + change (16 =? 88) with false. change (16 =? TRUE_DEPTH) with false. cbn iota.
-      rewrite color_values_256_xterm by lia. cbn [bind]. now rewrite xterm_basic_256.
-    + rewrite Z.eqb_refl. replace (88 <=? n) with false by lia.
-      rewrite color_values_88_xterm by lia. cbn [bind]. now rewrite xterm_basic_88.
-    + change (256 =? 88) with false. change (256 =? TRUE_DEPTH) with false. cbn iota.
-      rewrite color_values_256_xterm by lia. cbn [bind]. now rewrite xterm_basic_256.
+    injection Ed as <-. cbn [expected_rgb]. now apply rgb_basic_xterm.
   - destruct Hs as [Hk Hn]. rewrite (Hh (or_introl eq_refl)) in *.
     destruct md; cbn in Hk; try discriminate; cbn in Hn; cbn [mode_depth] in *.
     + rewrite Z.eqb_refl in Ed. destruct (rt_88_norm n Hn) as [d' [Ed' [Ep Nd]]].
@@ -95,91 +97,29 @@ Lemma hex_rgb_spec n : 0 <= n < 16777216 ->
 Proof. intros H. unfold hex_rgb. repeat split; Z.div_mod_to_equations; lia. Qed.
 
 (* ------------------------------------------------------------------ the whole specification *)
-Lemma colors_spec_basic md k bk :
-  (k = KBasic \/ bk = KBasic) ->
-  colors_spec md k bk = 16 \/ colors_spec md k bk = 88 \/ colors_spec md k bk = 256 \/ colors_spec md k bk = TRUE_DEPTH.
-Proof. destruct md, k, bk; cbn; intros [H|H]; try discriminate; tauto. Qed.
-
-Definition is_basic_desc (d : desc) : bool := match d with DBasic _ => true | _ => false end.
-
-Lemma side_desc_basic cs k n d : side_desc cs k n = Ok d -> k = KBasic -> is_basic_desc d = true.
-Proof.
-  intros E ->. cbn in E. unfold basic_name in E. destruct ((0 <=? n) && (n <? 16)); [|discriminate].
-  now injection E as <-.
-Qed.
-
-Theorem rgb_matches_xterm_unmixed D fg bg v fd fs bd :
+Theorem rgb_matches_xterm D fg bg v fd fs bd :
   Forall (wf_part (mode_of D)) fg -> wf_desc (mode_of D) bg -> attrspec_new fg bg D = ROk v ->
   foreground v = Ok (fd, fs) -> background v = Ok bd ->
-  (attr_colors v = TRUE_DEPTH -> is_basic_desc fd = false /\ is_basic_desc bd = false) ->
   get_rgb_values v = Ok (expected_rgb (attr_colors v) fd, expected_rgb (attr_colors v) bd).
 Proof.
-  intros W Wb E EF EB NM.
-  destruct (construct_inv D fg bg v W Wb E) as [VD [LE [_ [fcol [ss [k [bn [EFa [EP [EV [Hfn [Hbn [S1 S2]]]]]]]]]]]]].
+  intros W Wb E EF EB.
+  destruct (describe_fields D fg bg v W Wb E) as [fcol [ss [k [bn [fd' [bd' H]]]]]]. cbv zeta in H.
+  destruct H as [EV [Hfn [Hbn [S1 [S2 [EC [Efd [Ebd [EF' [EB' _]]]]]]]]]].
+  rewrite EF' in EF. injection EF as -> _. rewrite EB' in EB. injection EB as ->.
   set (md := mode_of D) in *. set (bk := part_kind md bg) in *. set (fn := dflt fcol) in *.
   destruct (colors_of_high md k bk fn bn S1 S2) as [C1 C2].
-  assert (EC : attr_colors v = colors_spec md k bk) by (subst v; now apply colors_pack).
-  assert (EFD : side_desc (colors_spec md k bk) k fn = Ok fd).
-  { unfold foreground in EF. destruct (foreground_color v) as [fd'|] eqn:X; [|discriminate]. cbn [bind] in EF.
-    injection EF as <- _. subst v. rewrite foreground_color_pack in X by assumption.
-    unfold side_desc. unfold high_desc in X. destruct k; exact X. }
-  assert (EBD : side_desc (colors_spec md k bk) bk bn = Ok bd).
-  { subst v. rewrite background_pack in EB by assumption. unfold side_desc. unfold high_desc in EB. destruct bk; exact EB. }
-  unfold get_rgb_values. subst v. rewrite rgb_fg_pack, rgb_bg_pack by assumption.
-  rewrite EC in *.
+  rewrite EC. unfold get_rgb_values. subst v. rewrite rgb_fg_pack, rgb_bg_pack by assumption.
+  rewrite colors_spec_out.
   rewrite (side_rgb md k fn _ fd S1), (side_rgb md bk bn _ bd S2); try assumption; try reflexivity.
-  - intros Hk. destruct (colors_spec_basic md k bk (or_intror Hk)) as [?|[?|[?|T]]]; try tauto.
-    exfalso. destruct (NM T) as [_ N2]. rewrite (side_desc_basic _ _ _ _ EBD Hk) in N2. discriminate.
   - intros [Hk|Hk]; apply C2; rewrite Hk; reflexivity.
-  - intros Hk. destruct (colors_spec_basic md k bk (or_introl Hk)) as [?|[?|[?|T]]]; try tauto.
-    exfalso. destruct (NM T) as [N1 _]. rewrite (side_desc_basic _ _ _ _ EFD Hk) in N1. discriminate.
   - intros [Hk|Hk]; apply C1; rewrite Hk; reflexivity.
 Qed.
 
-(* the statement without the "unmixed" premise is false of the code as it is: a basic colour beside a
-   true colour is reported as (0, 0, number) *)
-Definition rgb_matches_xterm_full : Prop :=
-  forall D fg bg v fd fs bd,
-  Forall (wf_part (mode_of D)) fg -> wf_desc (mode_of D) bg -> attrspec_new fg bg D = ROk v ->
-  foreground v = Ok (fd, fs) -> background v = Ok bd ->
-  get_rgb_values v = Ok (expected_rgb (attr_colors v) fd, expected_rgb (attr_colors v) bd).
-
-(* ------------------------------------------------------------------ get_rgb_values never raises on a constructed specification *)
-Lemma rgb_num_total md ks n cs :
-  side_ok md ks n -> ks <> KNone -> (cs = 88 -> md = M88) ->
-  (ks = KHigh \/ ks = KTrue -> cs = mode_depth md) ->
-  exists t, rgb_num cs n = Ok t.
-Proof.
-  intros Hs Hn H88 Hh. unfold rgb_num.
-  destruct (cs =? 88) eqn:E88.
-  - assert (cs = 88) by lia. specialize (H88 H). subst md.
-    assert (0 <= n < 88) by (destruct ks; cbn in Hs; try tauto; lia).
-    replace (88 <=? n) with false by lia. rewrite color_values_88_xterm by lia. eexists; reflexivity.
-  - destruct (cs =? TRUE_DEPTH) eqn:ET; [eexists; reflexivity|].
-    assert (0 <= n < 256).
-    { destruct ks; cbn in Hs; try tauto; try lia.
-      - destruct Hs as [Hk Hr]. specialize (Hh (or_introl eq_refl)).
-        destruct md; cbn in Hk, Hr, Hh; try discriminate; lia.
-      - destruct Hs as [Hk Hr]. specialize (Hh (or_intror eq_refl)).
-        destruct md; cbn in Hk, Hr, Hh; try discriminate; lia. }
-    rewrite color_values_256_xterm by lia. eexists; reflexivity.
-Qed.
-
+(* get_rgb_values never raises on a constructed specification *)
 Theorem get_rgb_total D fg bg v :
   Forall (wf_part (mode_of D)) fg -> wf_desc (mode_of D) bg -> attrspec_new fg bg D = ROk v ->
   exists r, get_rgb_values v = Ok r.
 Proof.
-  intros W Wb E.
-  destruct (construct_inv D fg bg v W Wb E) as [VD [LE [_ [fcol [ss [k [bn [EFa [EP [EV [Hfn [Hbn [S1 S2]]]]]]]]]]]]].
-  set (md := mode_of D) in *. set (bk := part_kind md bg) in *. set (fn := dflt fcol) in *.
-  destruct (colors_of_high md k bk fn bn S1 S2) as [C1 C2].
-  assert (M88' : colors_spec md k bk = 88 -> md = M88) by (destruct md, k, bk; cbn; intros; try discriminate; reflexivity).
-  unfold get_rgb_values. subst v. rewrite rgb_fg_pack, rgb_bg_pack by assumption.
-  assert (A : exists t, match k with KNone => Ok None | _ => rgb_num (colors_spec md k bk) fn end = Ok t).
-  { destruct k eqn:Ek; [eexists; reflexivity| | |];
-      (eapply rgb_num_total; [exact S1|discriminate|exact M88'|]; intros [X|X]; try discriminate X; apply C1; reflexivity). }
-  assert (B : exists t, match bk with KNone => Ok None | _ => rgb_num (colors_spec md k bk) bn end = Ok t).
-  { destruct bk eqn:Ek; [eexists; reflexivity| | |];
-      (eapply rgb_num_total; [exact S2|discriminate|exact M88'|]; intros [X|X]; try discriminate X; apply C2; reflexivity). }
-  destruct A as [ta Ea], B as [tb Eb]. rewrite Ea, Eb. eexists; reflexivity.
+  intros W Wb E. destruct (roundtrip D fg bg v W Wb E) as [[fd fs] [bd [EF [EB _]]]].
+  eexists. exact (rgb_matches_xterm D fg bg v fd fs bd W Wb E EF EB).
 Qed.
